@@ -239,7 +239,7 @@ class C16(Check):
                    'poll thread attempts once per pollinterval by construction']
     PROBES = ('c16.concurrent-callers', 'c16.multicomm', 'c16.late-reply', 'fault.device-close', 'fault.device-silent',
               'fault.device-refuse', 'c16.reconnect', 'c16.garbage', 'c16.bytes-mode', 'c16.string-mode',
-              'c16.two-byte-eol', 'c16.variable-length-replies', 'c16.callback-communicates')
+              'c16.two-byte-eol', 'c16.variable-length-replies', 'c16.callback-communicates', 'c16.callback-raised')
 
     def gen_case(self, rng, tier):
         mode = rng.choice(['string', 'string', 'bytes'])
@@ -282,7 +282,7 @@ class C16(Check):
                  'eol': rng.choice(['\n', '\n', '\r\n']),
                  # byte-oriented protocol with replies of variable length: getFullReply reads the body separately
                  'varlen': rng.random() < 0.5,
-                 'cb_comm': rng.random() < 0.3}
+                 'cb_comm': rng.random() < 0.3, 'cb_raise': rng.random() < 0.5}
         return {'shape': shape, 'ops': ops, 'faults': faults}
 
     def shrink_candidates(self, case):
@@ -338,6 +338,9 @@ class C16(Check):
 
         def on_reconnect():
             cbcount.append(sim.vnow())
+            return True
+
+        def init_device():
             if shape.get('cb_comm'):
                 # a reconnect callback re-initialising the device: it talks to it (from the thread which reconnected)
                 sim.count('c16.callback-communicates')
@@ -351,9 +354,18 @@ class C16(Check):
                 except Exception as e:   # noqa
                     r['result'] = ('exc', type(e).__name__, str(e)[:200], isinstance(e, CommunicationFailedError))
                     r['connected_after'] = io.is_connected
+                    r['t1'] = sim.vnow()
+                    r['seq1'] = sim.next_seq()
+                    if shape.get('cb_raise'):
+                        # the device was not ready: the callback fails (frappy logs it and drops the callback); the
+                        # callbacks registered after it must run all the same
+                        sim.count('c16.callback-raised')
+                        raise
                 r['t1'] = sim.vnow()
                 r['seq1'] = sim.next_seq()
             return True
+        # (registered in this order: the failing one first)
+        io.registerReconnectCallback('init', init_device)
         io.registerReconnectCallback('probe', on_reconnect)
         connhist = ctx['connhist'] = []
         io.addCallback('is_connected', lambda *a: connhist.append((sim.vnow(), a[0], len(a) > 1)))
@@ -540,6 +552,19 @@ class C16(Check):
                         piece, buf = buf[:4], buf[4:]
                         if piece[:1] == b'A':
                             arrival.setdefault(int.from_bytes(piece[1:3], 'big'), t)
+        if mode == 'bytes':
+            # garbage of any length shifts the 4 byte frames: look for the reply at every offset and take its latest
+            # arrival (a reply is called stale only if it cannot have arrived after the command was sent)
+            arrival = {}
+            for lst in ctx['client_arrivals']:
+                stream = b''.join(d for _t, d in lst)
+                times = [t for t, d in lst for _ in d]
+                for u in sent_at:
+                    pat = b'A' + u.to_bytes(2, 'big') + b'!'
+                    pos = stream.find(pat)
+                    while pos >= 0:
+                        arrival[u] = max(arrival.get(u, 0.0), times[pos + 3])
+                        pos = stream.find(pat, pos + 1)
         # byte level: per connection the stream as read from the socket, each byte with the event number of
         # the recv() which returned it, and the event number of the send of each command
         streams = []
